@@ -115,7 +115,10 @@ impl UserFunction for HFn {
             i
         };
         let key = enc_value(&params);
-        if matches!(self.spec.kind, FnKind::Fail) || self.spec.fail_idx.contains(&idx) || self.spec.fail_args.iter().any(|a| enc_value(a) == key) {
+        if matches!(self.spec.kind, FnKind::Fail) {
+            return Err(anyhow::anyhow!("fail"));
+        }
+        if self.spec.fail_idx.contains(&idx) || self.spec.fail_args.iter().any(|a| enc_value(a) == key) {
             return Err(anyhow::anyhow!("fail{}", idx));
         }
         Ok(match &self.spec.kind {
